@@ -299,7 +299,11 @@ func (f *Formatter) formatNode(n *html.Node, buf *strings.Builder, depth int) {
 		text := strings.TrimSpace(n.Data)
 		if text != "" {
 			buf.WriteString(indent)
-			buf.WriteString(escapeText(text))
+			if isRawTextParent(n) {
+				buf.WriteString(text)
+			} else {
+				buf.WriteString(escapeText(text))
+			}
 			buf.WriteString("\n")
 		}
 
@@ -346,7 +350,11 @@ func (f *Formatter) renderPreContent(n *html.Node, buf *strings.Builder) {
 	for c := n.FirstChild; c != nil; c = c.NextSibling {
 		switch c.Type {
 		case html.TextNode:
-			buf.WriteString(escapeText(c.Data))
+			if isRawTextParent(c) {
+				buf.WriteString(c.Data)
+			} else {
+				buf.WriteString(escapeText(c.Data))
+			}
 		case html.ElementNode:
 			buf.WriteString(f.renderOpenTag(c))
 			if !isVoidElement(c.DataAtom) {
@@ -447,7 +455,11 @@ func (f *Formatter) renderInlineChildren(n *html.Node) string {
 	for c := n.FirstChild; c != nil; c = c.NextSibling {
 		switch c.Type {
 		case html.TextNode:
-			b.WriteString(escapeText(normalizeInlineText(c.Data)))
+			if isRawTextParent(c) {
+				b.WriteString(c.Data)
+			} else {
+				b.WriteString(escapeText(normalizeInlineText(c.Data)))
+			}
 		case html.CommentNode:
 			b.WriteString("<!--")
 			b.WriteString(escapeComment(c.Data))
@@ -603,6 +615,21 @@ func escapeAttr(s string) string {
 // renderCloseTag renders a closing tag.
 func (f *Formatter) renderCloseTag(n *html.Node) string {
 	return "</" + n.Data + ">"
+}
+
+// isRawTextParent reports whether a text node sits in an element whose content the
+// parser takes as it is, without decoding character references; such text is written
+// back as it is.
+func isRawTextParent(n *html.Node) bool {
+	p := n.Parent
+	if p == nil || p.Type != html.ElementNode {
+		return false
+	}
+	switch p.DataAtom {
+	case atom.Script, atom.Style, atom.Noscript, atom.Iframe, atom.Noembed, atom.Noframes, atom.Xmp, atom.Plaintext:
+		return true
+	}
+	return false
 }
 
 // isVoidElement checks if an element is void (self-closing).
